@@ -51,7 +51,12 @@ Definition eval_hil (dim order k npts : N) (wsb : list N) (exact : bool) (idx sp
     | IErr _ _ _ => res_matches model impl
     (* a panic is explained only by the full model on what was really recorded *)
     | IPanic => res_matches model impl && use_full && (Nat.eqb np 0 || Nat.eqb (length idx) np)
-    | IHang => false
+    (* a hang is explained only if the (sequential) model runs out of its fuel on what was
+       recorded: the known non-termination of the quantile search on tiny weights
+       (Proofs/WqNonTermination.v); it still fails the property below *)
+    | IHang =>
+      Nat.eqb (length idx) np && negb early
+      && match hilbert_partition tol maxo order wq_fuel idx ws kk p0 with OutOfFuel => true | _ => false end
     end in
   let in_contract := Nat.eqb np (length p0) && Nat.eqb (length wsb) (length p0) && (1 <=? k)%N in
   let prop :=
